@@ -59,9 +59,16 @@ type progGen struct {
 	marks   []int  // offsets of the tested instructions
 	preOp   []byte // emitted directly before the next tested opcode (e.g. HALT), then cleared
 	ramOnly bool   // pointers only into writable plain memory (no ROM, no FEA0-FEFF, no IF)
+	cartRAM bool   // also point into the cartridge RAM window (free-running workloads only)
 }
 
 func (g *progGen) pick(span int) uint16 {
+	if g.cartRAM && g.r.Chance(1, 4) {
+		if g.r.Chance(1, 2) {
+			return 0xa000 + uint16(g.r.Intn(16))
+		}
+		return 0xa000 + uint16(g.r.Intn(0x2000-span))
+	}
 	for {
 		a := pickAddr(g.r, span)
 		if !g.ramOnly {
